@@ -705,6 +705,19 @@ func runCheck(o checkOpts) *CheckOutcome {
 	say("govc: property %s tier %s: %d functions under contract, %d obligations, %d discharged (load %.1fs, gen %.1fs, solve %.1fs)",
 		o.prop, o.tier, len(out.Funcs), len(results), nOK, out.LoadS, out.GenS, out.SolveS)
 	if o.showNotes {
+		type sl struct {
+			n string
+			t float64
+			s string
+		}
+		var sls []sl
+		for _, r := range results {
+			sls = append(sls, sl{r.O.Name, r.Res.Time, r.Res.Status + "/" + r.Res.Solver})
+		}
+		sort.Slice(sls, func(i, j int) bool { return sls[i].t > sls[j].t })
+		for i := 0; i < len(sls) && i < 6; i++ {
+			fmt.Printf("  slow: %.2fs %s %s\n", sls[i].t, sls[i].s, sls[i].n)
+		}
 		for _, n := range out.Notes {
 			fmt.Println("  note:", n)
 		}
